@@ -128,3 +128,9 @@ def idecl_cpp(d):
 def enum_cpp(e):
     """C++ spelling of an enum under its collected namespaces"""
     return '::'.join(ns_chain(e.parent)) + ('::' if len(ns_chain(e.parent)) > 0 else '') + e.name
+
+
+@spec()
+def template_arity(t):
+    """number of parameters of a template (-1: not a template)"""
+    return len(t.typenames) if isinstance(t, Template) else -1
